@@ -692,6 +692,14 @@ func (sc *SpecCtx) call(x *SX) Val {
 		return sc.fpCall(x, name, args)
 	}
 	switch name {
+	case "visited":
+		// visited(k): the function's map iteration has delivered key k
+		need(1)
+		t, ok := sc.visitedTerm(sc.eval(args[0]))
+		if !ok {
+			sc.fail(x, "visited(k) needs exactly one map iteration in the function")
+		}
+		return Val{Ty: specBool, T: t}
 	case "uvarintValue", "uvarintRead":
 		// the two results of encoding/binary.Uvarint(b) as the code sees them (the
 		// uninterpreted functions of the buffer contents the extern model uses)
